@@ -1,0 +1,110 @@
+//go:build verif
+
+package regexp2
+
+import (
+	"time"
+
+	"github.com/dlclark/regexp2/v2/syntax"
+)
+
+// This file is only compiled with the "verif" build tag. It exposes observation
+// points used by the external verification harness; nothing here is reachable in
+// a normal build.
+
+// VerifNaiveFind attempts the compiled (full) program at startAt, startAt+-1, ...
+// in the Regexp's scan order with no candidate finder, no string prefix filter,
+// no minimum-length cut-off and no bump-along shortcut. gOrigin is the \G origin.
+func VerifNaiveFind(re *Regexp, input []rune, startAt, gOrigin int) (*Match, error) {
+	runner := re.getRunner()
+	defer re.putRunner(runner)
+	bump, stop := 1, len(input)
+	if re.RightToLeft() {
+		bump, stop = -1, 0
+	}
+	for pos := startAt; ; pos += bump {
+		m, err := verifAttempt(runner, input, pos, gOrigin)
+		if err != nil || m != nil {
+			return m, err
+		}
+		if pos == stop {
+			return nil, nil
+		}
+	}
+}
+
+// VerifMatchAt performs a single attempt of the full program at pos.
+func VerifMatchAt(re *Regexp, input []rune, pos, gOrigin int) (*Match, error) {
+	runner := re.getRunner()
+	defer re.putRunner(runner)
+	return verifAttempt(runner, input, pos, gOrigin)
+}
+
+func verifAttempt(r *Runner, input []rune, pos, gOrigin int) (*Match, error) {
+	r.timeout = r.re.MatchTimeout
+	r.ignoreTimeout = (DefaultMatchTimeout == r.re.MatchTimeout)
+	r.debug = false
+	r.Runtextstart = gOrigin
+	r.Runtext = input
+	r.Runtextend = len(input)
+	r.Runtextpos = pos
+	r.initMatch(newMatchText(input))
+	r.startTimeoutWatch()
+	if err := executeDefault(r); err != nil {
+		return nil, err
+	}
+	if r.runmatch.matchcount[0] > 0 {
+		return r.tidyMatch(false), nil
+	}
+	return nil, nil
+}
+
+// VerifCode returns the program and compile-time facts attached to re.
+func VerifCode(re *Regexp) *syntax.Code { return re.code }
+
+// VerifQuickCode returns the bool-only program of re (nil if none).
+func VerifQuickCode(re *Regexp) *syntax.Code { return re.quickCode }
+
+// VerifHasStringPrefixFilter reports whether string entry points use a raw-byte prefix filter.
+func VerifHasStringPrefixFilter(re *Regexp) bool { return re.stringPrefixFilter != nil }
+
+// VerifScanStats runs the unmodified scan loop on a private interpreter state and
+// reports the capacity of the backtracking stack (and of the position stack) afterwards.
+func VerifScanStats(re *Regexp, input []rune, startAt int) (m *Match, err error, trackCap, stackCap int) {
+	r := &Runner{re: re, code: re.code}
+	if startAt < 0 {
+		startAt = 0
+		if re.RightToLeft() {
+			startAt = len(input)
+		}
+	}
+	m, err = r.scan(input, newMatchText(input), startAt, -1, false, re.MatchTimeout)
+	return m, err, len(r.runtrack), len(r.runstack)
+}
+
+// VerifPooledTrackCap takes an interpreter state from re's pool, reports its
+// backtracking stack capacity and returns it to the pool.
+func VerifPooledTrackCap(re *Regexp) int {
+	r := re.getRunner()
+	defer re.putRunner(r)
+	return len(r.runtrack)
+}
+
+// VerifResetClock stops the timeout clock goroutine (if any) and returns the clock
+// to its initial state.
+func VerifResetClock() {
+	stopClock()
+	fast.mu.Lock()
+	fast.current.write(0)
+	fast.clockEnd.write(0)
+	fast.start = time.Time{}
+	fast.running = false
+	fast.mu.Unlock()
+}
+
+// VerifClockRunning reports whether the clock goroutine is marked as running.
+func VerifClockRunning() bool {
+	fast.mu.Lock()
+	defer fast.mu.Unlock()
+	return fast.running
+}
